@@ -45,7 +45,7 @@ CHECKS = {
          "The harness does not own the scheduler: interleavings are sampled by repetition on 16 cores; a race needing one rare interleaving, or a deadlock (reported as inconclusive by the watchdog), can be missed.",
          "DESIGN.md section 3 C16 and section 7"),
  "C19": ("proptest-generated value pairs x provenance paths + exhaustive basis x path pairs; oracle: structural equality of the harness's value model (reference model), symmetry/negation/reflexivity laws",
-         "Equal and nearly-equal first-order values are built along 24 provenance paths (every array-producing operator, any/union-typed positions, cells, closures, loops) and compared with ==, !=, match value arms, bound/unbound, folded/run-time and nested inside arrays, tuples and structs; ~650k comparisons per quick run, 24 basis values x 26 x 26 path pairs swept completely (two paths label the array with a wider declared element type than a literal gets); a value compared with itself through one name at top level and inside function bodies is equal exactly when it holds no NaN; function values, cells and iterators (8 constructors x 10 alias paths x 6 comparison forms, 38 hand-written programs) are equal exactly when they stem from one creation.",
+         "Equal and nearly-equal first-order values are built along 24 provenance paths (every array-producing operator, any/union-typed positions, cells, closures, loops) and compared with ==, !=, match value arms, bound/unbound, folded/run-time and nested inside arrays, tuples and structs; ~880k comparisons per quick run, 24 basis values x 26 x 26 path pairs swept completely (two paths label the array with a wider declared element type than a literal gets); a value compared with itself through one name at top level and inside function bodies is equal exactly when it holds no NaN; function values, cells and iterators (8 constructors x 10 alias paths x 6 comparison forms, 38 hand-written programs) are equal exactly when they stem from one creation.",
          "Trusts the JSON value model's equality (IEEE for floats) and that each provenance expression evaluates to the intended value (checked first).",
          "DESIGN.md section 3, C19"),
  "C18": ("export discovery + exhaustive products of boundary argument pools + proptest random arguments; oracles: declared result type (harness membership), documented results by naive independent implementations (reference model), differential std::fs on a twin directory for fault states",
@@ -65,7 +65,7 @@ CHECKS = {
          "The hiding wrapper `*(mut T c)` is assumed opaque to the folding pass (Mut::recreate and indirection never fold); twins differing in type-check acceptance are discarded.",
          "DESIGN.md section 3, C04"),
  "C06": ("proptest-generated typed programs (scoping profile) against the reference interpreter (model-based oracle) on all top-level names, the effect log and errors",
-         "40k programs per quick run with a 4-name identifier pool: shadowing in every body kind, closures capturing names redeclared later, shared cells, named recursion, parameters spelled like their function, user-written iterators with locals consumed by every operator; compared with an independent big-step evaluator written from the documentation.",
+         "40k programs per quick run with a 4-name identifier pool plus the implementation's own helper names: shadowing in every body kind, binders deliberately spelled like visible variables, a differential over 19 binding constructs between a declaration and a typed use, closures capturing names redeclared later, shared cells, named recursion, parameters spelled like their function, user-written iterators with locals consumed by every operator; compared with an independent big-step evaluator written from the documentation; a generated (well-typed) program that the checker rejects is a violation.",
          "Trusts the reference interpreter (genr/refi.rs); unspecified values (fillers of exhausted array iterators) discard a case when observable.",
          "DESIGN.md section 3, C06"),
  "C07": ("proptest-generated typed programs (effects profile) with tick calls in operand positions; oracle: the reference interpreter's effect log (exactly-once, left-to-right, short-circuit)",
